@@ -54,6 +54,32 @@ func c06Universe(r *core.Rand, limits []uint32) []inputs.Input {
 	return u
 }
 
+// floodPlan: two or three callers, a hundred and more small detections each, every
+// one with a result string of its own (a declared charset label nobody used
+// before). Whatever the library keeps per distinct result - an interning table, a
+// cache with generations - is filled, rotated and evicted within one run.
+func floodPlan(r *core.Rand, prop string) *Plan {
+	p := &Plan{Prop: prop, Limit0: []uint32{3072, 0, 300}[r.Intn(3)], MaxSteps: 4000000, Pool: "steal",
+		Sched: core.SchedSpec{Kind: "random"}, Slots: 4}
+	nt := r.Range(2, 3)
+	base := r.Intn(1 << 20)
+	n := 0
+	for t := 0; t < nt; t++ {
+		var ops []Op
+		for i, m := 0, r.Range(200, 260); i < m; i++ {
+			// (an unknown encoding name in an XML declaration is not echoed, a charset label in an HTML meta tag is)
+			in := inputs.Input{Fam: []string{"html_meta", "html_meta", "html_meta", "html_meta", "html_meta", "html_meta", "html_meta", "xml_enc"}[r.Intn(8)], N: r.Range(0, 30), V: 12 + r.Intn(4), Seed: uint64(base + n)}
+			if r.Chance(1, 4) && n > 0 {
+				in.Seed = uint64(base + r.Intn(n)) // one that was seen before (maybe long ago)
+			}
+			n++
+			ops = append(ops, Op{Kind: "detect", In: &in})
+		}
+		p.Tasks = append(p.Tasks, ops)
+	}
+	return p
+}
+
 func (c *c06) Plan(seed uint64, tier string, worker, workers, idx int) *Plan {
 	if idx < 1000000 {
 		// the race phase starts with the systematic part: two callers detecting every
@@ -64,6 +90,9 @@ func (c *c06) Plan(seed uint64, tier string, worker, workers, idx int) *Plan {
 		}
 	}
 	r := core.NewRand(core.Mix(seed, 0xc06, uint64(worker), uint64(idx)))
+	if r.Chance(1, 50) {
+		return floodPlan(r, "C06")
+	}
 	if r.Chance(1, 8) {
 		// detections only, over the pool-dirtying / shape-sensitive inputs of the C04
 		// workload: races between two detections need particular input shapes
@@ -534,6 +563,39 @@ func (c *c06) Check(rr *RunResult, st *Stats) []Failure {
 		}
 	}
 	hist, overlap := c06History(rr)
+	hasWriter := false
+	for _, ops := range rr.Plan.Tasks {
+		for oi := range ops {
+			hasWriter = hasWriter || ops[oi].Kind == "setlimit" || ops[oi].Kind == "extend"
+		}
+	}
+	if !hasWriter {
+		// nothing changes the limit or the tree during the run: every answer is judged
+		// against the one state there is (no search needed, however many operations)
+		s0 := state{limit: rr.Plan.Limit0, exts: rr.W.PreExts}
+		for ti, ops := range rr.Plan.Tasks {
+			for oi := range ops {
+				op, res := &ops[oi], &rr.W.Res[ti][oi]
+				if !res.Done || res.R.Nil {
+					continue
+				}
+				switch op.Kind {
+				case "detect", "reader", "file":
+					if e := expectDetect(op, rr.W.Bytes[ti][oi], s0); !e.matches(op, res) {
+						fs = append(fs, Failure{"mismatch", fmt.Sprintf("%s: got %s err=%q; with limit %d and the %d registered extension(s) a sequential call gives %s", describe(ti, oi, op), res.R.Key(), res.ErrText, s0.limit, len(s0.exts), e)})
+					}
+				case "lookup":
+					if ok, want := lookupMatches(op, res, s0); !ok {
+						fs = append(fs, Failure{"mismatch", fmt.Sprintf("%s: Lookup shows %s Is=%v; expected %s", describe(ti, oi, op), res.R.Key(), res.Is, want)})
+					}
+				}
+			}
+		}
+		c06Probes(rr, st)
+		st.FaultFree++
+		_ = overlap
+		return fs
+	}
 	pm := porcupine.Model{
 		Init:              func() interface{} { return init },
 		Step:              m.step,
